@@ -39,6 +39,7 @@ Definition W_MINER  : N := 3%N.   (* block.Txs[0] with TxCount = 0 *)
 Definition W_SHASH  : N := 4%N.   (* pd.sTxHashes[i], i >= len *)
 Definition W_GROUP  : N := 5%N.   (* pd.block.Txs[index+j], group longer than the remaining slots *)
 Definition W_INDEX  : N := 6%N.   (* pd.block.Txs[index] (never reached: index comes from the same slice) *)
+Definition W_NILVAL : N := 7%N.   (* postBlockChain: p.val.addBroadcastMsg with p.val == nil (disableValidation) *)
 
 (** 2^45: largest length of a slice of 8-byte elements that [make] does not reject *)
 Definition max_len : Z := 35184372088832.
@@ -192,8 +193,10 @@ Record state := mkSt {
 Definition init : state := mkSt [] [] [] 0.
 
 (** configuration / environment: elements the OS can provide to one [make],
-    LtBlockPendTimeout (ms), heights for which the local GetBlocks fails *)
-Record config := mkCfg { c_cap : Z; c_timeout : Z; c_nochain : list Z }.
+    LtBlockPendTimeout (ms), heights for which the local GetBlocks fails,
+    disableValidation (then broadcastProtocol.val is nil: postBlockChain hands
+    the block to the blockchain module and panics right after) *)
+Record config := mkCfg { c_cap : Z; c_timeout : Z; c_nochain : list Z; c_noval : bool }.
 
 Fixpoint mem_n (x : N) (l : list N) : bool :=
   match l with [] => false | y :: tl => N.eqb x y || mem_n x tl end.
@@ -238,7 +241,9 @@ Definition recv_lt_raw (c : config) (p : pool) (now : Z) (from pub : N) (lb : lt
     (st1, add_lt c p now from pub lb st1).
 
 (** * buildPendList and the body of pendBlockLoop *)
-Fixpoint scan (p : pool) (now timeout : Z) (l : list pend)
+Definition posted (e : list eff) : bool := match e with [] => false | _ :: _ => true end.
+
+Fixpoint scan (noval : bool) (p : pool) (now timeout : Z) (l : list pend)
   : res (list pend * list pend * list eff) :=
   match l with
   | [] => Ok ([], [], [])
@@ -248,7 +253,8 @@ Fixpoint scan (p : pool) (now timeout : Z) (l : list pend)
       | Panic w => Panic w
       | Fatal => Fatal
       | Ok (pd', built, e) =>
-          match scan p now timeout tl with
+          if noval && posted e then Panic W_NILVAL else
+          match scan noval p now timeout tl with
           | Panic w => Panic w
           | Fatal => Fatal
           | Ok (keep, tmo, e') =>
@@ -268,7 +274,7 @@ Fixpoint requests (height : Z) (tmo : list pend) : list eff :=
   end.
 
 Definition tick_raw (c : config) (p : pool) (now : Z) (st : state) : res (state * list eff) :=
-  match scan p now (c_timeout c) (st_pend st) with
+  match scan (c_noval c) p now (c_timeout c) (st_pend st) with
   | Panic w => Panic w
   | Fatal => Fatal
   | Ok (keep, tmo, e) =>
@@ -325,7 +331,9 @@ Definition step (c : config) (st : state) (p : pool) (ev : event) : sres :=
   | ERecvLt now from pub lb =>
       match recv_lt_raw c p now from pub lb st with
       | (_, Ok (st2, e)) => Alive st2 p e
-      | (st1, Panic _) => Alive st1 p []      (* deferred recover in handleBroadcastReceive *)
+      | (st1, Panic _) => Alive st1 p []      (* deferred recover in handleBroadcastReceive; with
+                                                 disableValidation the same recover swallows the nil
+                                                 dereference after a successful post: same outcome *)
       | (_, Fatal) => Crashed 0%N
       end
   | ETick now =>
